@@ -26,9 +26,141 @@ type searchRun struct {
 type searchSeg struct {
 	N    int         `json:"n"`
 	Runs []searchRun `json:"runs"`
+	Big  string      `json:"big"` // non-empty: a large pruned search (predicate name) judged relationally, see runBig
 }
 
-func (s searchSeg) key() string { return fmt.Sprintf("Search(n=%d,runs=%v)", s.N, s.Runs) }
+func (s searchSeg) key() string {
+	if s.Big != "" {
+		return fmt.Sprintf("SearchBig(n=%d,%s)", s.N, s.Big)
+	}
+	return fmt.Sprintf("Search(n=%d,runs=%v)", s.N, s.Runs)
+}
+
+// ---- isomorphism of two graphs by backtracking (harness side; every witness it finds is re-checked by TLC) ----
+type adjG struct {
+	n   int
+	adj [][]bool
+	deg []int
+}
+
+func adjOf(y yieldJ) adjG {
+	g := adjG{n: y.N, adj: make([][]bool, y.N), deg: make([]int, y.N)}
+	for i := range g.adj {
+		g.adj[i] = make([]bool, y.N)
+	}
+	for _, r := range y.E {
+		i, j := obs.RankToPair(r)
+		g.adj[i][j], g.adj[j][i] = true, true
+		g.deg[i]++
+		g.deg[j]++
+	}
+	return g
+}
+
+func (g adjG) invariant() string {
+	keys := make([]string, g.n)
+	for v := 0; v < g.n; v++ {
+		nd := []int{}
+		for u := 0; u < g.n; u++ {
+			if g.adj[v][u] {
+				nd = append(nd, g.deg[u])
+			}
+		}
+		sortInts(nd)
+		keys[v] = fmt.Sprint(g.deg[v], nd)
+	}
+	sortStrings(keys)
+	return fmt.Sprint(keys)
+}
+
+func sortStrings(s []string) {
+	for i := 1; i < len(s); i++ {
+		for j := i; j > 0 && s[j] < s[j-1]; j-- {
+			s[j], s[j-1] = s[j-1], s[j]
+		}
+	}
+}
+
+// isoPerm returns p with: vertex i of b corresponds to vertex p[i] of a (Relabel(a, p) = b), or nil.
+func isoPerm(a, b adjG) []int {
+	n := a.n
+	p := make([]int, n)
+	used := make([]bool, n)
+	var rec func(i int) bool
+	rec = func(i int) bool {
+		if i == n {
+			return true
+		}
+		for v := 0; v < n; v++ {
+			if used[v] || a.deg[v] != b.deg[i] {
+				continue
+			}
+			ok := true
+			for j := 0; j < i; j++ {
+				if a.adj[v][p[j]] != b.adj[i][j] {
+					ok = false
+					break
+				}
+			}
+			if ok {
+				used[v], p[i] = true, v
+				if rec(i + 1) {
+					return true
+				}
+				used[v] = false
+			}
+		}
+		return false
+	}
+	if rec(0) {
+		return p
+	}
+	return nil
+}
+
+// runBig: preprune / prune / sharded preprune at a size where TLC cannot canonise every graph.  Judged by:
+// equal counts, every yield well formed and in the class (TLC), and no two yields isomorphic (harness finds
+// candidates with isoPerm, TLC checks the witness).
+func runBig(n int, pred string) tr.E {
+	collect := func(r searchRun) ([]yieldJ, string) {
+		e := runSearchRun(n, r)
+		ys := []yieldJ{}
+		for _, sh := range e["yields"].([][]yieldJ) {
+			ys = append(ys, sh...)
+		}
+		return ys, e["res"].(string)
+	}
+	pre, r1 := collect(searchRun{M: 1, Pred: pred, Place: "pre"})
+	post, r2 := collect(searchRun{M: 1, Pred: pred, Place: "post"})
+	shd, r3 := collect(searchRun{M: 3, Pred: pred, Place: "pre"})
+	res := "ok"
+	for _, r := range []string{r1, r2, r3} {
+		if r != "ok" {
+			res = r
+		}
+	}
+	dups := []tr.E{}
+	for _, ys := range [][]yieldJ{pre, shd} {
+		buckets := map[string][]int{}
+		gs := make([]adjG, len(ys))
+		for i, y := range ys {
+			gs[i] = adjOf(y)
+			k := gs[i].invariant()
+			buckets[k] = append(buckets[k], i)
+		}
+		for _, idx := range buckets {
+			for x := 0; x < len(idx) && len(dups) < 3; x++ {
+				for y := x + 1; y < len(idx) && len(dups) < 3; y++ {
+					if p := isoPerm(gs[idx[x]], gs[idx[y]]); p != nil {
+						dups = append(dups, tr.E{"a": ys[idx[x]], "b": ys[idx[y]], "p": p})
+					}
+				}
+			}
+		}
+	}
+	return tr.E{"ev": "RunBig", "n": n, "m": 1, "pred": pred, "place": "pre", "yields": [][]yieldJ{pre}, "res": res,
+		"counts": []int{len(pre), len(post), len(shd)}, "dups": dups}
+}
 
 var hereditary = map[string]func(g *graph.DenseGraph) bool{
 	"trianglefree": func(g *graph.DenseGraph) bool {
@@ -74,6 +206,52 @@ var hereditary = map[string]func(g *graph.DenseGraph) bool{
 		}
 		return true
 	},
+}
+
+// hereditary classes that are NOT closed under adding an isolated vertex
+func init() {
+	hereditary["alpha2"] = func(g *graph.DenseGraph) bool { // no independent set of size 3
+		n := g.N()
+		for a := 0; a < n; a++ {
+			for b := a + 1; b < n; b++ {
+				for c := b + 1; c < n; c++ {
+					if !g.IsEdge(a, b) && !g.IsEdge(a, c) && !g.IsEdge(b, c) {
+						return false
+					}
+				}
+			}
+		}
+		return true
+	}
+	hereditary["cmulti"] = func(g *graph.DenseGraph) bool { // complete multipartite: no induced K1 + K2
+		n := g.N()
+		for a := 0; a < n; a++ {
+			for b := 0; b < n; b++ {
+				for c := b + 1; c < n; c++ {
+					if a != b && a != c && g.IsEdge(b, c) && !g.IsEdge(a, b) && !g.IsEdge(a, c) {
+						return false
+					}
+				}
+			}
+		}
+		return true
+	}
+	hereditary["cograph"] = func(g *graph.DenseGraph) bool { // no induced path on 4 vertices
+		n := g.N()
+		for a := 0; a < n; a++ {
+			for b := 0; b < n; b++ {
+				for c := 0; c < n; c++ {
+					for d := 0; d < n; d++ {
+						if a != b && a != c && a != d && b != c && b != d && c != d &&
+							g.IsEdge(a, b) && g.IsEdge(b, c) && g.IsEdge(c, d) && !g.IsEdge(a, c) && !g.IsEdge(a, d) && !g.IsEdge(b, d) {
+							return false
+						}
+					}
+				}
+			}
+		}
+		return true
+	}
 }
 
 // brute-force twins of the three predicates that call library code (so that the predicate handed to the
@@ -208,15 +386,22 @@ func runSearchRun(n int, r searchRun) tr.E {
 }
 
 func searchGrid(c *Ctx) []searchSeg {
-	maxN, maxM := 6, 3
+	maxN := 6
 	if c.Thorough() {
-		maxN, maxM = 7, 5
+		maxN = 7
 	}
-	preds := []string{"trianglefree", "maxdeg2", "forest", "k4free", "clawfree", "bipartite"}
+	preds := []string{"trianglefree", "maxdeg2", "forest", "k4free", "clawfree", "bipartite", "alpha2", "cmulti", "cograph"}
 	var segs []searchSeg
 	for n := 0; n <= maxN; n++ {
 		s := searchSeg{N: n, Runs: []searchRun{{M: 1, Pred: "none", Place: "none"}}}
-		for m := 2; m <= maxM; m++ {
+		moduli := []int{2, 3, 4, 5, 6, 7, 8, 13}
+		if n == 6 && !c.Thorough() {
+			moduli = []int{2, 3, 5}
+		}
+		if n == 7 {
+			moduli = []int{2, 5}
+		}
+		for _, m := range moduli {
 			s.Runs = append(s.Runs, searchRun{M: m, Pred: "none", Place: "none"})
 		}
 		for i, p := range preds {
@@ -235,6 +420,13 @@ func searchGrid(c *Ctx) []searchSeg {
 			rest = rest[k:]
 		}
 	}
+	// larger sizes, pruned searches only (relational judgement)
+	bigs := []searchSeg{{N: 8, Big: "trianglefree"}, {N: 9, Big: "trianglefree"}, {N: 10, Big: "trianglefree"}, {N: 9, Big: "forest"}, {N: 10, Big: "forest"},
+		{N: 10, Big: "maxdeg2"}, {N: 11, Big: "maxdeg2"}, {N: 9, Big: "bipartite"}, {N: 8, Big: "cograph"}, {N: 8, Big: "alpha2"}}
+	if c.Thorough() {
+		bigs = append(bigs, searchSeg{N: 11, Big: "forest"}, searchSeg{N: 12, Big: "maxdeg2"}, searchSeg{N: 10, Big: "bipartite"}, searchSeg{N: 9, Big: "cograph"}, searchSeg{N: 11, Big: "trianglefree"})
+	}
+	segs = append(segs, bigs...)
 	return segs
 }
 
@@ -261,6 +453,11 @@ func driveC03(c *Ctx) {
 	runs := 0
 	for _, s := range segs {
 		w := set.Begin(s.key(), tr.E{"input": s})
+		if s.Big != "" {
+			w.Emit(runBig(s.N, s.Big))
+			runs++
+			continue
+		}
 		for _, r := range s.Runs {
 			w.Emit(runSearchRun(s.N, r))
 			runs++
